@@ -23,6 +23,7 @@ def strategy():
         cond_rate=0,
         focus=True,
         locked_rate=7,
+        untyped_rate=8,
     )
 
 
